@@ -566,3 +566,34 @@ def when_some(v, f, none=True):
     if isinstance(v, VOpt):
         return VBool(z3.If(v.is_none().t, z3.BoolVal(none), _b(f(v.val()))))
     return f(v)
+
+
+def _literal_set_count(arr):
+    """number of elements of a literal set term Store(...K(false)...) or None if not a literal"""
+    keys = {}
+    t = arr
+    while True:
+        if z3.is_store(t):
+            a, k, v = t.arg(0), t.arg(1), t.arg(2)
+            ks = k.sexpr()
+            if ks not in keys:
+                if not (z3.is_true(v) or z3.is_false(v)):
+                    return None
+                keys[ks] = z3.is_true(v)
+            t = a
+        elif z3.is_const_array(t):
+            if z3.is_false(t.arg(0)):
+                return sum(1 for x in keys.values() if x)
+            return None
+        else:
+            return None
+
+
+def card_is(s: 'VSet', n):
+    """|s| == n.  Symbolically this is the engine's uninterpreted cardinality (the same term len(set)
+    evaluates to); on a literal (concrete) set it is counted."""
+    from . import builtins_model as bm
+    c = _literal_set_count(z3.simplify(s.arr))
+    if c is not None:
+        return VBool(z3.IntVal(c) == _t(n))
+    return VBool(bm.card_term(s).t == _t(n))
